@@ -42,6 +42,10 @@ def check(repo: Repo, rep, tier):
     map_total(repo, rep)
     xfail_marker(repo, rep)
     flag_label(repo, rep)
+    from .C18 import ctx_restore
+
+    # a flag that leaks out of one comparison silences the recording of every other call site
+    ctx_restore(repo, rep)
 
 
 def wrapper_frames(repo: Repo, f: Func):
